@@ -274,6 +274,9 @@ func smOps() []smOp {
 			}
 			switch u.kind {
 			case "eof":
+				if wire != nil {
+					s.vs.Feed(wire) // the transport ends in the middle of a frame
+				}
 				s.vs.Term = io.EOF
 				m.ended = true
 			case "terr":
@@ -323,6 +326,8 @@ func smOps() []smOp {
 	cl("close(bad utf8)", wsref.ClosePayload(1000, "\xff\xfe"), 1002)
 	peer("rsv1-frame", munit{kind: "violation"}, enc(wsref.Frame{Fin: true, Rsv: 4, Op: wsref.OpText, Payload: []byte("x")}))
 	peer("transport-eof", munit{kind: "eof"}, nil)
+	// the connection drops after the first 3 bytes of a 5-byte text frame: still an unexpected end of the transport (1006)
+	peer("transport-eof-mid-frame", munit{kind: "eof"}, enc(wsref.Frame{Fin: true, Op: wsref.OpText, Payload: []byte("hello")})[:3])
 	peer("transport-error", munit{kind: "terr"}, nil)
 
 	for api := 0; api < 4; api++ {
